@@ -455,10 +455,10 @@ theorem createTail_cons {s : St} (hc : Consistent s) (pp : Path) (n : Name) (isM
 
 /-- `copy_node_up` with everything it guarantees on success -/
 theorem copyNodeUp_spec (p : Path) (s : St) (hc : Consistent s) :
-    Outcome (copyNodeUp p s) (fun _ s' => CUD p s s') (fun s' => Consistent s') := by
+    Outcome (copyNodeUp p s) (fun _ s' => CUD p s s') (fun s' => Consistent s' ∧ ViewX s s') := by
   unfold copyNodeUp
   cases hm : s.mem p with
-  | none => rw [bind_err (getNode_err hm)]; exact hc
+  | none => rw [bind_err (getNode_err hm)]; exact ⟨hc, ViewX.refl s⟩
   | some m =>
     rw [bind_ok (getNode_ok hm)]
     by_cases hmu : m.inUpper = true
@@ -468,12 +468,12 @@ theorem copyNodeUp_spec (p : Path) (s : St) (hc : Consistent s) :
         | none => have := no_upper_not_inUpper hc h hm; rw [this] at hmu; cases hmu
         | some L => rfl
       exact ⟨hc, ⟨m, hm, hmu⟩, rfl, hu, fun _ _ => rfl, fun p' m0 h => ⟨m0, h, rfl, rfl⟩, StatKept.refl s,
-        ImgKept.refl_anc hc hm hmu⟩
+        ImgKept.refl_anc hc hm hmu, fun _ => ViewX.refl s⟩
     · simp only [hmu, Bool.false_eq_true, if_false]
       simp only [Bool.not_eq_true] at hmu
       have hst := nodeStat_eq hc hm
       cases hr : m.reals with
-      | nil => rw [hr] at hst; rw [bind_err hst]; exact hc
+      | nil => rw [hr] at hst; rw [bind_err hst]; exact ⟨hc, ViewX.refl s⟩
       | cons r rest =>
         rw [hr] at hst
         rw [bind_ok hst]
@@ -484,10 +484,10 @@ theorem copyNodeUp_spec (p : Path) (s : St) (hc : Consistent s) :
           by_cases hd : (s.disk.statReal r).isDir = true
           · obtain ⟨e, he⟩ := createUpperDir_noUpper p s hc hup
             simp only [hd, if_true, he]
-            exact hc
+            exact ⟨hc, ViewX.refl s⟩
           · simp only [hd, Bool.false_eq_true, if_false]
             cases p with
-            | nil => exact hc
+            | nil => exact ⟨hc, ViewX.refl s⟩
             | cons n pp =>
               obtain ⟨pm, hpm, _⟩ := hc.reach n pp m hm
               have hpnu := no_upper_not_inUpper hc hup hpm
@@ -498,7 +498,7 @@ theorem copyNodeUp_spec (p : Path) (s : St) (hc : Consistent s) :
               show Outcome (copyFileUp (s.disk.statReal r) pp n s) _ _
               unfold copyFileUp
               rw [bind_err this]
-              exact hc
+              exact ⟨hc, ViewX.refl s⟩
         | some L =>
           have hu : s.disk.upper.isSome := by rw [hup]; rfl
           by_cases hd : (s.disk.statReal r).isDir = true
@@ -506,17 +506,17 @@ theorem copyNodeUp_spec (p : Path) (s : St) (hc : Consistent s) :
             have := createUpperDir_spec p s hc hu
             cases hres : createUpperDir p s with
             | ok u s' => rw [hres] at this; exact this
-            | err e s' => rw [hres] at this; exact this.cons
+            | err e s' => rw [hres] at this; exact ⟨this.cons, this.view⟩
           · simp only [hd, Bool.false_eq_true, if_false]
             cases p with
-            | nil => exact hc
+            | nil => exact ⟨hc, ViewX.refl s⟩
             | cons n pp =>
               simp only [Bool.not_eq_true] at hd
               have := copyFileUp_spec hc hu n pp hm hmu hr hd
               show Outcome (copyFileUp (s.disk.statReal r) pp n s) _ _
               cases hres : copyFileUp (s.disk.statReal r) pp n s with
               | ok u s' => rw [hres] at this; exact this
-              | err e s' => rw [hres] at this; exact this.cons
+              | err e s' => rw [hres] at this; exact ⟨this.cons, this.view⟩
 
 theorem lookupSelf_loaded {s : St} (hc : Consistent s) {p : Path} {m : MNode} (hm : s.mem p = some m)
     (hw : m.whiteout = false) (hlo : m.loaded = true) {r : Real} {rest : List Real} (hr : m.reals = r :: rest) :
@@ -612,7 +612,7 @@ theorem doCreateLike_spec (pp : Path) (n : Name) (isMkdir : Bool) (meth : Method
       · rw [bind_ok hck]
         have hcp := copyNodeUp_spec pp s hc
         cases hres : copyNodeUp pp s with
-        | err e s' => rw [hres] at hcp; rw [bind_err hres]; exact hcp
+        | err e s' => rw [hres] at hcp; rw [bind_err hres]; exact hcp.1
         | ok u s2 =>
           rw [hres] at hcp
           rw [bind_ok hres]
